@@ -26,6 +26,7 @@ func init() {
 			"Q8-Q10 every comment list of a call, retain entry and collection element is printed exactly once on every path; Q11 the in-place topological sort re-examines the slot it filled by shifting (index not advanced on that back edge). " +
 			"Q12 the comments attached to the operand of a split are printed. " +
 			"Q13 nil is stored into a node's comment fields only after they were read on every path; Q16 comments handed from a container to its first entry are cleared on the container; Q17 the comments of an empty binding list are printed by CallStm.format; Q14 roundUpTo takes the ceiling only after establishing that the value is not already a multiple; Q15 the float->integer conversion in formatGB is dominated by an upper bound. " +
+			"Q18 formatGB writes '-' on the edge where its parameter is negative. " +
 			"NOT decided: idempotence, comment placement, number printing, topological order, include-expanded rendering.",
 		Assumptions: commonAssumptions,
 	}
@@ -205,6 +206,7 @@ func runC09(c *an.Ctx) {
 	ruleQ15(c)
 	ruleQ16(c)
 	ruleQ17(c)
+	ruleQ18(c)
 }
 
 func fieldOwner(p *an.Prog, f *types.Var) string {
